@@ -46,7 +46,9 @@ DIGESTS = [("petri_net/logic.py", "PetriNetLogic", "evaluate_petri_net"),
            ("scheduler.py", "Scheduler", "register_callback_service_finished"),
            ("scheduler.py", "Scheduler", "register_callback_task_finished"),
            ("scheduler.py", "Scheduler", "register_variable_access_function"),
-           ("scheduler.py", "Scheduler", "register_for_petrinet_callbacks")]
+           ("scheduler.py", "Scheduler", "register_for_petrinet_callbacks"),
+           ("scheduler.py", "Scheduler", "check_expression"),
+           ("scheduler.py", "Scheduler", "execute_expression")]
 
 
 class Unrecognised(Exception):
